@@ -11,7 +11,7 @@ CONSTANTS
   MaxLocal = 2
   MaxInbound = 1
   MaxTime = 660
-  Faults = FALSE
+  Faults = TRUE
   MaxRestart = 1
   UseFourth = TRUE
   SetIdxs = {0, 1, 2, 3}
